@@ -80,8 +80,19 @@ def sibling_mib(a, b):
     return Mib(sorted(ents))
 
 
+MANY_BASE = (1, 3, 6, 1, 3, 7)
+
+
+def many_mib(n):
+    """n rows with short names and one-octet values (a reply of ~280 of them fits one datagram)."""
+    iv = values.v_int(1) if hasattr(values, "v_int") else values.representative("int")
+    return Mib([(MANY_BASE + (i,), rb.enc_int(i % 100), i % 100) for i in range(1, n + 1)])
+
+
 def mib_for(mask, idx):
     if isinstance(idx, dict):
+        if "many" in idx:
+            return many_mib(idx["many"])
         if "long" in idx:
             return long_mib()
         if "sib" in idx:
@@ -418,6 +429,19 @@ def gen_cases(tier):
                         "maxreps": [1, 3, 10],
                         "caps": [None] if cfg.version == "v1" else [None, 2],
                     }
+    # replies of 255..280 varbinds (many short rows, large max_repetitions, generous agent)
+    for driver in ("sync", "async"):
+        yield {
+            "driver": driver,
+            "cfg": Cfg("v2c").describe(),
+            "idx": {"many": 400},
+            "mask_lo": 0,
+            "mask_hi": 1,
+            "bases": [list(MANY_BASE)],
+            "method": "getbulk",
+            "maxreps": [254, 255, 256, 257, 280, 300, 1000],
+            "caps": [255, 256, 280],
+        }
     # every max_repetitions value across the INTEGER width boundaries, on a full MIB
     mrs = list(range(1, 301)) + [32767, 32768, 65535, 65536, 8388607, 8388608, 2**31 - 1]
     if thorough:
@@ -452,7 +476,7 @@ def run(tier):
     rec = common.Recorder(PROPERTY, tier, LEVEL, MODULE)
     rec.rule = (
         "every MIB that is a subset of the OID universe (arcs 1,2,127,128,129,200,16383,16384,2097152; a child below a leaf-like node; entries before "
-        "and after the subtree) x 10 bases (root, subtree, node with child, leaf, two multi-octet arcs, absent, last, '1.3', beyond) x {getnext; getbulk max_rep x agent cap; fetch}; subtree roots ending in a sub-identifier at each base-128 width boundary; rows with names of 127 / 128 sub-identifiers and of >= 128 content octets; sibling rows of equal encoded length but different arc widths; every max_repetitions 1..300 (thorough 1..1099) and the INTEGER width boundaries on a full MIB "
+        "and after the subtree) x 10 bases (root, subtree, node with child, leaf, two multi-octet arcs, absent, last, '1.3', beyond) x {getnext; getbulk max_rep x agent cap; fetch}; subtree roots ending in a sub-identifier at each base-128 width boundary; rows with names of 127 / 128 sub-identifiers and of >= 128 content octets; sibling rows of equal encoded length but different arc widths; 400 short rows fetched 254..280 per reply; every max_repetitions 1..300 (thorough 1..1099) and the INTEGER width boundaries on a full MIB "
         "x {v1,v2c,v3} through sync and async iterators. Non-trivial = the expected result is non-empty. Quick: 2^10 MIBs (sync), 2^8 (async); thorough: 2^15."
     )
     rec.assume(
